@@ -4,7 +4,7 @@
 (* q * F + r bytes (r < F) with metadata announcing `meta` frames (-1: the  *)
 (* metadata of a running acquisition), opened with the real Reader /        *)
 (* OnlineReader / Reader-on-.cbin, followed by the reads issued on it:      *)
-(*   {kind, F, q, r, meta, quiet, outcome, exc, ns, rows, ncok, rlf, ftsq,  *)
+(*   {kind, F, q, r, meta, quiet, cq, cr, outcome, exc, ns, rows, ncok, rlf, ftsq, *)
 (*    ftsw, reads : << <<"slice", a, b, rowsObs, eqObs>> |                  *)
 (*                     <<"index", i, 0, rowsObs, eqObs>> >>}                *)
 (* rlf = projection of rl * fs, ftsq / ftsw = projection of                 *)
@@ -20,12 +20,12 @@ CONSTANTS Variant
 
 Traces == JsonDeserialize(IOEnv.TRACE_FILE)
 
-VARIABLES F, bytes, meta, kind, quiet, pc, ns, rlf, ftsq, ftsw,   \* ReaderOpen's variables
+VARIABLES F, bytes, meta, kind, quiet, pc, ns, rlf, ftsq, ftsw, cbytes,   \* ReaderOpen's variables
           tid, pos, prop, impl
 
 R == INSTANCE ReaderOpen WITH FSet <- {}, MaxFrames <- 0, MaxMeta <- 0
 
-rvars == <<F, bytes, meta, kind, quiet, pc, ns, rlf, ftsq, ftsw>>
+rvars == <<F, bytes, meta, kind, quiet, pc, ns, rlf, ftsq, ftsw, cbytes>>
 vars == <<rvars, tid, pos, prop, impl>>
 
 T == Traces[tid]
@@ -42,6 +42,7 @@ Pick(old, cands) ==   \* keep the first failure
 Init == /\ tid \in 1..Len(Traces)
         /\ F = T.F /\ bytes = T.q /\ meta = T.meta /\ kind = T.kind /\ quiet = T.quiet
         /\ pc = "closed" /\ ns = -1 /\ rlf = -1 /\ ftsq = -1 /\ ftsw = TRUE
+        /\ cbytes = T.cq             \* frames the early constructor saw (-1: none); trailing bytes in T.cr
         /\ pos = 0 /\ prop = "" /\ impl = ""
 
 \* the constructor returned or raised
@@ -49,12 +50,12 @@ TOpen ==
     /\ pc = "closed"
     /\ pc' = T.outcome
     /\ ns' = T.ns /\ rlf' = T.rlf /\ ftsq' = T.ftsq /\ ftsw' = T.ftsw
-    /\ UNCHANGED <<F, bytes, meta, kind, quiet, tid, pos>>
+    /\ UNCHANGED <<F, bytes, meta, kind, quiet, cbytes, tid, pos>>
     /\ impl' = Pick(impl, <<
           <<T.r >= 0 /\ T.r < T.F /\ T.q >= 1, "Input:not-a-file-of-the-domain">>,
-          <<T.outcome = R!ImplOutcome(T.kind, T.F, T.q, T.r, T.meta, T.quiet), "Open:outcome">>,
-          <<T.outcome # "opened" \/ T.ns = R!ImplNs(T.kind, T.F, T.q, T.r, T.meta), "Open:ns">>,
-          <<T.outcome # "opened" \/ <<T.ftsq, T.ftsw>> = R!ImplFts(T.kind, T.F, T.q, T.r, T.meta), "Open:fileTimeSecs">> >>)
+          <<T.outcome = R!ImplOutcomeD(T.kind, T.F, T.q, T.r, T.meta, T.quiet, T.cq, T.cr), "Open:outcome">>,
+          <<T.outcome # "opened" \/ T.ns = R!ImplNsD(T.kind, T.F, T.q, T.r, T.meta, T.cq, T.cr), "Open:ns">>,
+          <<T.outcome # "opened" \/ <<T.ftsq, T.ftsw>> = R!ImplFtsD(T.kind, T.F, T.q, T.r, T.meta, T.cq, T.cr), "Open:fileTimeSecs">> >>)
     /\ prop' = Pick(prop, <<
           <<R!OpenSucceedsP(T.outcome), "OpenSucceeds:" \o T.exc>>,
           <<R!ExposedP(T.ns, T.q), "Exposed:ns">>,
@@ -77,7 +78,7 @@ Report ==
        \/ pc = "opened" /\ pos = NRd
     /\ pc' = "reported"
     /\ (prop # "" \/ impl # "") => PrintT(<<"VERDICT", tid, prop, impl, pos>>)
-    /\ UNCHANGED <<F, bytes, meta, kind, quiet, ns, rlf, ftsq, ftsw, tid, pos, prop, impl>>
+    /\ UNCHANGED <<F, bytes, meta, kind, quiet, ns, rlf, ftsq, ftsw, cbytes, tid, pos, prop, impl>>
 
 Next == TOpen \/ TRead \/ Report
 Spec == Init /\ [][Next]_vars
